@@ -8,12 +8,14 @@ import (
 	"encoding/hex"
 	"errors"
 	"fmt"
+	"reflect"
 	"regexp"
 	"sort"
 	"strconv"
 	"strings"
 	"testing"
 	"time"
+	"unsafe"
 
 	"github.com/AdguardTeam/AdGuardHome/internal/aghtest"
 	"github.com/AdguardTeam/golibs/cache"
@@ -29,12 +31,22 @@ const (
 	c19CacheTimeSec = 3650 // ages are multiples of 100 s: never within 50 s of expiry
 )
 
+// c19Txt is one TXT string the scripted service holds; Brk makes it the first
+// string of a new TXT record of the answer (the model sees the flat list).
+type c19Txt struct {
+	S   string `json:"s"`
+	Brk bool   `json:"brk,omitempty"`
+}
+
 type c19Step struct {
-	Kind  string   `json:"kind"` // check, advance, evict
+	Kind  string   `json:"kind"` // check, advance, evict, db
 	Host  string   `json:"host,omitempty"`
 	Fail  bool     `json:"fail,omitempty"`
 	Secs  int64    `json:"secs,omitempty"`
 	Evict []string `json:"evict,omitempty"`
+	// db: the service's database changes between two checks.
+	Add []c19Txt `json:"add,omitempty"`
+	Del []string `json:"del,omitempty"`
 }
 
 // c19SetEv is one cache.Set made during a Check.
@@ -113,14 +125,75 @@ func (w *c19Cache) Del(k []byte) {
 	delete(w.sizes, string(k))
 	w.audit(fmt.Sprintf("after Del(%x)", k))
 }
-func (w *c19Cache) Clear()              { w.inner.Clear() }
-func (w *c19Cache) Stats() cache.Stats  { return w.inner.Stats() }
+func (w *c19Cache) Clear()             { w.inner.Clear() }
+func (w *c19Cache) Stats() cache.Stats { return w.inner.Stats() }
+
+// c19Elem is one element of the golibs cache as c19Peek reads it.
+type c19Elem struct {
+	key string
+	val []byte // the stored slice itself, not a copy
+}
+
+// c19Peek reads the usage list of a golibs cache, least recently used element
+// first, without calling Get (which would move the element read to the hot
+// end): cache.usage is the sentinel of a ring of listItem{next, prev} embedded
+// as field used in item{key, value []byte; used listItem}.  Field offsets come
+// from reflection on the library's own types.
+func c19Peek(cc cache.Cache) (elems []c19Elem, size uint, count int) {
+	v := reflect.ValueOf(cc).Elem()
+	usage := v.FieldByName("usage")
+	itemT := v.FieldByName("items").Type().Elem().Elem()
+	usedF, _ := itemT.FieldByName("used")
+	keyF, _ := itemT.FieldByName("key")
+	valF, _ := itemT.FieldByName("value")
+	nextF, _ := usage.Type().FieldByName("next")
+	sentinel := unsafe.Pointer(usage.UnsafeAddr())
+	next := func(p unsafe.Pointer) unsafe.Pointer { return *(*unsafe.Pointer)(unsafe.Add(p, nextF.Offset)) }
+	for p := next(sentinel); p != sentinel; p = next(p) {
+		it := unsafe.Add(p, -int(usedF.Offset))
+		elems = append(elems, c19Elem{
+			key: string(*(*[]byte)(unsafe.Add(it, keyF.Offset))),
+			val: *(*[]byte)(unsafe.Add(it, valF.Offset)),
+		})
+	}
+	return elems, uint(v.FieldByName("size").Uint()), v.FieldByName("items").Len()
+}
+
+// c19PeekGet is the value stored under key, or nil; no effect on the cache.
+func c19PeekGet(cc cache.Cache, key []byte) []byte {
+	elems, _, _ := c19Peek(cc)
+	for _, e := range elems {
+		if e.key == string(key) {
+			return e.val
+		}
+	}
+	return nil
+}
+
+// c19Conf reads the configuration newCache derived for a golibs cache.
+func c19Conf(cc cache.Cache) (lru bool, maxSize, maxElem, maxCount uint64) {
+	conf := reflect.ValueOf(cc).Elem().FieldByName("conf")
+	return conf.FieldByName("EnableLRU").Bool(), conf.FieldByName("MaxSize").Uint(),
+		conf.FieldByName("MaxElementSize").Uint(), conf.FieldByName("MaxCount").Uint()
+}
 
 // c19ProbeCache asks the cache that New configured whether it is what the
 // property's "cache" is taken to be: limited to size bytes of keys and values
 // (0 = unlimited), dropping the least recently used elements when full.  The
 // harness then replaces it by an instrumented cache of the same configuration.
 func c19ProbeCache(cc cache.Cache, size uint) string {
+	// The configuration the model of the library cache assumes
+	// (Model/HashPrefixLRU.v): LRU, size in bytes, no limit on the number of
+	// elements, no smaller limit for one element.
+	lru, maxSize, maxElem, maxCount := c19Conf(cc)
+	wantSize := uint64(size)
+	if size == 0 {
+		wantSize = ^uint64(0)
+	}
+	if !lru || maxSize != wantSize || maxElem != wantSize || maxCount != ^uint64(0) {
+		return fmt.Sprintf("CacheSize %d: the cache is configured EnableLRU=%v MaxSize=%d MaxElementSize=%d MaxCount=%d",
+			size, lru, maxSize, maxElem, maxCount)
+	}
 	k1, k2 := []byte{1, 1}, []byte{2, 2}
 	if size == 0 {
 		cc.Set(k1, make([]byte, 1<<16))
@@ -157,9 +230,17 @@ func c19ProbeCache(cc cache.Cache, size uint) string {
 type c19Hist struct {
 	// CacheSize is Config.CacheSize in bytes; 0 = unlimited.
 	CacheSize uint   `json:"cache_size"`
-	Suffix string    `json:"suffix"`
-	DB     []string  `json:"db"`
-	Steps  []c19Step `json:"steps"`
+	Suffix    string `json:"suffix"`
+	// DB is the database the scripted service starts with; db steps change it.
+	DB    []c19Txt  `json:"db"`
+	Steps []c19Step `json:"steps"`
+}
+
+func c19Strs(ss ...string) (db []c19Txt) {
+	for _, s := range ss {
+		db = append(db, c19Txt{S: s})
+	}
+	return db
 }
 
 // c19Enum is the monitor's own reading of the property: the trailing-label
@@ -302,42 +383,85 @@ func (w *c19World) host(r *vfRand) string {
 	return h
 }
 
+// c19TxtKinds are the ways a TXT string can fail to be a full hash.
+var c19TxtKinds = []string{"nonhex64", "nonascii64", "tiny", "short-hex", "short-nonhex", "long-hex", "long-nonhex"}
+
+// c19TxtPositions are the places of a malformed string relative to a string
+// of the same answer that is the full hash of an enumerated name.
+var c19TxtPositions = []string{"before", "after", "earlier-record", "later-record"}
+
+// c19TxtKind classifies a TXT string by its bytes alone: "" for a full hash
+// (64 hexadecimal digits, either case), otherwise the kind of malformation.
+func c19TxtKind(s string) string {
+	_, derr := hex.DecodeString(s)
+	switch {
+	case len(s) == 64 && derr == nil:
+		return ""
+	case len(s) == 64:
+		for i := 0; i < len(s); i++ {
+			if s[i] >= 0x80 {
+				return "nonascii64"
+			}
+		}
+		return "nonhex64"
+	case len(s) < 4:
+		return "tiny"
+	case len(s) < 64 && derr == nil:
+		return "short-hex"
+	case len(s) < 64:
+		return "short-nonhex"
+	case derr == nil:
+		return "long-hex"
+	default:
+		return "long-nonhex"
+	}
+}
+
+// c19Malformed makes a string of the given kind out of a hash; all but "tiny"
+// start with the four digits of the hash's prefix, so that the scripted
+// service serves them when that prefix is asked.  v selects a variant.
+func c19Malformed(kind string, h [32]byte, v int) string {
+	s := hex.EncodeToString(h[:])
+	switch kind {
+	case "nonhex64":
+		b := []byte(s)
+		b[4+v%60] = "gG zx-"[v%6]
+		return string(b)
+	case "nonascii64":
+		return s[:62] + "\xc3\xa9"
+	case "tiny":
+		return []string{"", "zz", "00", "0"}[v%4]
+	case "short-hex":
+		return []string{s[:4], s[:62], s[:32]}[v%3]
+	case "short-nonhex":
+		return []string{s[:63], s[:5], s[:60] + "xyz"}[v%3]
+	case "long-hex":
+		o := sha256.Sum256([]byte(s))
+		return []string{s + "00", s + "ff", s + "0000", s + hex.EncodeToString(o[:]), s + s, strings.ToUpper(s) + "FF"}[v%6]
+	default: // long-nonhex
+		return []string{s + "0", s + "g", s + s[:3], s + "zz"}[v%4]
+	}
+}
+
 // c19Mangle makes a TXT string out of a hash: mostly well-formed.
 func c19Mangle(r *vfRand, h [32]byte) (s string, valid bool) {
-	s = hex.EncodeToString(h[:])
-	switch r.Intn(15) {
-	case 12:
-		// over-long, even length, decodes: the first 32 bytes are the hash
-		return s + vfPick(r, []string{"00", "ff", "0000"}), false
-	case 13:
-		// two hashes glued together
-		o := sha256.Sum256([]byte(s))
-		return s + hex.EncodeToString(o[:]), false
-	case 14:
-		return s + s, false
-	case 0:
-		return strings.ToUpper(s), true
-	case 1:
-		return s[:63], false
-	case 2:
-		return s + "0", false
-	case 3:
-		b := []byte(s)
-		b[int(r.Range(4, 63))] = 'g'
-		return string(b), false
-	case 4:
-		return s[:62] + "\xc3\xa9", false
-	case 5:
-		return s[:4], false
+	switch k := r.Intn(16); {
+	case k == 0:
+		return strings.ToUpper(hex.EncodeToString(h[:])), true
+	case k <= 7 && k-1 < len(c19TxtKinds):
+		if kind := c19TxtKinds[k-1]; kind != "tiny" {
+			return c19Malformed(kind, h, r.Intn(60)), false
+		}
 	}
-	return s, true
+	return hex.EncodeToString(h[:]), true
 }
 
 func (w *c19World) history(r *vfRand, nOps int) (h c19Hist) {
 	h.Suffix = vfPick(r, []string{"sb.dns.adguard.com.", "pc.dns.adguard.com.", "x."})
-	if r.Chance(1, 4) {
-		// A cache that cannot hold one answer, or only just.
-		h.CacheSize = vfPick(r, []uint{45, 60, 100, 130, 200, 300})
+	if r.Chance(1, 3) {
+		// A cache that holds a few elements, one answer only just, or not even
+		// that: elements are 10 bytes (no hash), 42, 74, ..
+		h.CacheSize = vfPick(r, []uint{45, 60, 64, 90, 100, 130, 200, 300, 500})
 	}
 	nHosts := int(r.Range(1, 4))
 	hosts := make([]string, 0, nHosts)
@@ -350,8 +474,17 @@ func (w *c19World) history(r *vfRand, nOps int) (h c19Hist) {
 			hosts = append(hosts, vfPick(r, w.labels)+hosts[0][i:])
 		}
 	}
+	if r.Chance(1, 2) {
+		// The parent on its own: its entry is then older (or younger) than the
+		// child's.
+		if i := strings.IndexByte(hosts[0], '.'); i > 0 && strings.Contains(hosts[0][i+1:], ".") {
+			hosts = append(hosts, hosts[0][i+1:])
+		}
+	}
+	txt := func(s string) c19Txt { return c19Txt{S: s, Brk: r.Chance(1, 3)} }
 	// Database.
 	var splicedHosts []string
+	var names []string // every name a db step may list later
 	for _, host := range hosts {
 		if chain := c19Chain(host); len(chain) >= 2 && r.Chance(1, 3) {
 			// A hash made of one chain member's prefix and another member's
@@ -363,25 +496,32 @@ func (w *c19World) history(r *vfRand, nOps int) (h c19Hist) {
 			if r.Chance(1, 8) {
 				t, _ = c19Mangle(r, sp)
 			}
-			h.DB = append(h.DB, t)
+			h.DB = append(h.DB, txt(t))
 			splicedHosts = append(splicedHosts, host)
 		}
 		subs := c19Subnames(host)
+		names = append(names, subs...)
 		for _, s := range subs {
 			sum := sha256.Sum256([]byte(s))
 			if r.Chance(1, 5) {
 				t, _ := c19Mangle(r, sum)
-				h.DB = append(h.DB, t)
+				h.DB = append(h.DB, txt(t))
 			}
 			if r.Chance(1, 4) {
 				// Another hash with the same prefix.
 				o := sha256.Sum256([]byte(s + "#" + fmt.Sprint(r.Intn(1000))))
 				o[0], o[1] = sum[0], sum[1]
 				t, _ := c19Mangle(r, o)
-				h.DB = append(h.DB, t)
+				h.DB = append(h.DB, txt(t))
+			}
+			if r.Chance(1, 6) {
+				// A malformed string under the same prefix, wherever the shuffle
+				// puts it relative to the hash itself.
+				kind := vfPick(r, c19TxtKinds)
+				h.DB = append(h.DB, txt(c19Malformed(kind, sum, r.Intn(60))))
 			}
 			if tw, ok := w.collide[s]; ok && r.Chance(1, 2) {
-				h.DB = append(h.DB, hex.EncodeToString(c19Sum(tw)))
+				h.DB = append(h.DB, txt(hex.EncodeToString(c19Sum(tw))))
 			}
 			if tw, ok := w.collide[s]; ok {
 				hosts = append(hosts, tw)
@@ -389,11 +529,17 @@ func (w *c19World) history(r *vfRand, nOps int) (h c19Hist) {
 		}
 	}
 	if r.Chance(1, 6) {
-		h.DB = append(h.DB, vfPick(r, []string{"", "zz", "00", "not a hash"}))
+		h.DB = append(h.DB, txt(vfPick(r, []string{"", "zz", "00", "not a hash"})))
 	}
 	vfShuffle(r, h.DB)
+	// What the database holds at this point of the generated history, for the
+	// removals.
+	cur := make([]string, 0, len(h.DB))
+	for _, e := range h.DB {
+		cur = append(cur, e.S)
+	}
 	for i := 0; i < nOps; i++ {
-		switch k := r.Intn(10); {
+		switch k := r.Intn(12); {
 		case k < 2 && len(splicedHosts) > 0:
 			// Twice in a row: the second one is answered from the cache.
 			sh := vfPick(r, splicedHosts)
@@ -403,7 +549,34 @@ func (w *c19World) history(r *vfRand, nOps int) (h c19Hist) {
 			h.Steps = append(h.Steps, c19Step{Kind: "check", Host: vfPick(r, hosts), Fail: r.Chance(1, 12)})
 		case k < 9:
 			h.Steps = append(h.Steps, c19Step{Kind: "advance",
-				Secs: vfPick(r, []int64{100, 500, 1800, 3600, 3700, 4000})})
+				Secs: vfPick(r, []int64{100, 500, 1800, 1900, 3600, 3700, 4000})})
+		case k < 11:
+			// The service's database changes: names of the hosts (their parents
+			// included) get listed or delisted, foreign hashes come and go.
+			st := c19Step{Kind: "db"}
+			for n := int(r.Range(1, 2)); n > 0; n-- {
+				name := vfPick(r, names)
+				sum := sha256.Sum256([]byte(name))
+				switch r.Intn(6) {
+				case 0:
+					o := sha256.Sum256([]byte(name + "#" + fmt.Sprint(r.Intn(1000))))
+					o[0], o[1] = sum[0], sum[1]
+					st.Add = append(st.Add, txt(hex.EncodeToString(o[:])))
+				case 1:
+					t, _ := c19Mangle(r, sum)
+					st.Add = append(st.Add, txt(t))
+				case 2, 3:
+					st.Add = append(st.Add, txt(hex.EncodeToString(sum[:])))
+				default:
+					if len(cur) > 0 {
+						st.Del = append(st.Del, vfPick(r, cur))
+					} else {
+						st.Add = append(st.Add, txt(hex.EncodeToString(sum[:])))
+					}
+				}
+			}
+			cur = c19DBStrings(c19ChangeDB(c19Strs(cur...), st.Add, st.Del))
+			h.Steps = append(h.Steps, st)
 		default:
 			var ev []string
 			for _, host := range hosts {
@@ -417,6 +590,40 @@ func (w *c19World) history(r *vfRand, nOps int) (h c19Hist) {
 		}
 	}
 	return h
+}
+
+// c19ChangeDB is the database after a db step: the strings in del removed
+// (every occurrence), the strings of add appended.
+func c19ChangeDB(db []c19Txt, add []c19Txt, del []string) (res []c19Txt) {
+	gone := map[string]bool{}
+	for _, s := range del {
+		gone[s] = true
+	}
+	for _, e := range db {
+		if !gone[e.S] {
+			res = append(res, e)
+		}
+	}
+	return append(res, add...)
+}
+
+func c19DBStrings(db []c19Txt) (ss []string) {
+	for _, e := range db {
+		ss = append(ss, e.S)
+	}
+	return ss
+}
+
+// c19ValidSet is the set of full hashes (decoded) among the strings of db.
+func c19ValidSet(db []c19Txt) map[string]bool {
+	m := map[string]bool{}
+	for _, e := range db {
+		if c19TxtKind(e.S) == "" {
+			b, _ := hex.DecodeString(e.S)
+			m[string(b)] = true
+		}
+	}
+	return m
 }
 
 // c19B prints a byte string for Run/C19.v: seven bytes to a primitive integer
@@ -499,15 +706,18 @@ func c19FloorDiv(a, b int64) int64 {
 // c19Run executes one history on a fresh Checker and emits the case.
 func c19Run(out *vfOut, h c19Hist, forced []string) {
 	var (
-		lastQ   string
-		asked   bool
-		failNow bool
-		served  []string
-		classes = map[string]bool{}
+		lastQ      string
+		asked      bool
+		failNow    bool
+		served     []string
+		servedRecs [][]string
+		classes    = map[string]bool{}
 	)
 	for _, f := range forced {
 		classes[f] = true
 	}
+	// The database of the scripted service as it is now.
+	db := append([]c19Txt(nil), h.DB...)
 	ups := &aghtest.UpstreamMock{
 		OnAddress: func() string { return "verif" },
 		OnClose:   func() error { return nil },
@@ -526,21 +736,24 @@ func c19Run(out *vfOut, h c19Hist, forced []string) {
 			}
 		}
 		resp := (&dns.Msg{}).SetReply(req)
-		served = served[:0]
+		served, servedRecs = served[:0], nil
 		var cur *dns.TXT
-		for i, s := range h.DB {
+		for i, e := range db {
+			s := e.S
 			if len(s) >= 4 && !want[strings.ToLower(s[:4])] {
 				continue
 			}
 			served = append(served, s)
-			if cur == nil || i%3 == 0 {
+			if cur == nil || e.Brk {
 				if i%4 == 1 {
 					resp.Answer = append(resp.Answer, &dns.A{Hdr: dns.RR_Header{Name: lastQ, Rrtype: dns.TypeA, Class: dns.ClassINET}})
 				}
 				cur = &dns.TXT{Hdr: dns.RR_Header{Name: lastQ, Rrtype: dns.TypeTXT, Class: dns.ClassINET}}
 				resp.Answer = append(resp.Answer, cur)
+				servedRecs = append(servedRecs, nil)
 			}
 			cur.Txt = append(cur.Txt, s)
+			servedRecs[len(servedRecs)-1] = append(servedRecs[len(servedRecs)-1], s)
 		}
 		return resp, nil
 	}
@@ -554,20 +767,15 @@ func c19Run(out *vfOut, h c19Hist, forced []string) {
 	probe := c19ProbeCache(c.cache, h.CacheSize)
 	wc := c19NewCache(h.CacheSize)
 	c.cache = wc
-
-	// Valid database hashes, for the monitor.
-	dbValid := map[string]bool{}
-	for _, s := range h.DB {
-		if len(s) == 64 {
-			if b, err := hex.DecodeString(s); err == nil {
-				dbValid[string(b)] = true
-			}
-		}
+	if h.CacheSize != 0 {
+		classes["small-cache"] = true
 	}
-	// Universe of names and prefixes.
+
+	// Valid database hashes as the database is now, for the monitor.
+	dbValid := c19ValidSet(db)
+	// Universe of names.
 	shaTbl := map[string]bool{}
 	psTbl := map[string]bool{}
-	prefSet := map[string]bool{}
 	for _, st := range h.Steps {
 		if st.Kind != "check" {
 			continue
@@ -575,17 +783,8 @@ func c19Run(out *vfOut, h c19Hist, forced []string) {
 		psTbl[st.Host] = true
 		for _, s := range c19Subnames(st.Host) {
 			shaTbl[s] = true
-			prefSet[string(c19Sum(s)[:2])] = true
 		}
 	}
-	for k := range dbValid {
-		prefSet[k[:2]] = true
-	}
-	prefs := make([]string, 0, len(prefSet))
-	for p := range prefSet {
-		prefs = append(prefs, p)
-	}
-	sort.Strings(prefs)
 
 	monOK, monMsg, monKey := true, "", ""
 	fail := func(key, msg string) {
@@ -598,49 +797,58 @@ func c19Run(out *vfOut, h c19Hist, forced []string) {
 		fail("C19/cache-configuration", probe)
 	}
 
+	// The cache as it is, in the order of the library's usage list (least
+	// recently used first), read without touching that order.
 	dump := func() string {
 		now := time.Now().Unix()
+		elems, _, _ := c19Peek(wc.inner)
 		var items []string
-		for _, p := range prefs {
-			data := c.cache.Get([]byte(p))
-			if data == nil {
-				continue
-			}
-			it := toCacheItem(data)
+		for _, e := range elems {
+			it := toCacheItem(e.val)
 			hs := make([]string, 0, len(it.hashes))
 			for _, x := range it.hashes {
 				hs = append(hs, c19B(string(x[:])))
 			}
 			sort.Strings(hs)
 			cl := c19FloorDiv(it.expiry.Unix()-now+25, 100)
-			items = append(items, vfPair(vfPair(c19B(p), vfZ(cl)), vfList("list N", hs)))
+			items = append(items, vfPair(vfPair(c19B(e.key), vfZ(cl)), vfList("list N", hs)))
 		}
 		return vfList("list N * Z * list (list N)", items)
 	}
 
 	var ops []string
 	nontrivial := false
-	sinceAdvance, sinceEvict := false, false
+	sinceAdvance, sinceEvict, sinceDB := false, false, false
 	seen := map[string]bool{}
-	// Monitor state for "only until the entry expires": virtual clock and the
-	// instant each prefix was last answered by the service.
+	// The monitor's own account of the cache, independent of what is stored in
+	// it: virtual clock; for every 2-byte prefix the instant its entry was
+	// stored, the valid hashes the database held at that moment, and the number
+	// of the Set that stored it.
 	vnow := int64(0)
 	fetched := map[string]int64{}
+	snap := map[string]map[string]bool{}
+	setSeq := map[string]int{}
+	nSets := 0
+	hexp := func(n string) string { return hex.EncodeToString(c19Sum(n)[:2]) }
+	present := func(n string) bool { _, ok := fetched[hexp(n)]; return ok }
 	live := func(n string) bool {
-		at, ok := fetched[hex.EncodeToString(c19Sum(n)[:2])]
+		at, ok := fetched[hexp(n)]
 		return ok && vnow-at <= c19CacheTimeSec
+	}
+	forget := func(hp string) {
+		delete(fetched, hp)
+		delete(snap, hp)
+		delete(setSeq, hp)
 	}
 	for _, st := range h.Steps {
 		switch st.Kind {
 		case "advance":
-			for _, p := range prefs {
-				data := c.cache.Get([]byte(p))
-				if data == nil {
-					continue
-				}
-				// In place: a Set could evict other entries.
-				exp := int64(binary.BigEndian.Uint64(data))
-				binary.BigEndian.PutUint64(data, uint64(exp-st.Secs))
+			elems, _, _ := c19Peek(wc.inner)
+			for _, e := range elems {
+				// In place: a Set could evict other entries, a Get would make the
+				// entry the most recently used one.
+				exp := int64(binary.BigEndian.Uint64(e.val))
+				binary.BigEndian.PutUint64(e.val, uint64(exp-st.Secs))
 			}
 			sinceAdvance = true
 			vnow += st.Secs
@@ -649,11 +857,26 @@ func c19Run(out *vfOut, h c19Hist, forced []string) {
 			var ps []string
 			for _, p := range st.Evict {
 				c.cache.Del([]byte(p))
-				delete(fetched, hex.EncodeToString([]byte(p)))
+				forget(hex.EncodeToString([]byte(p)))
 				ps = append(ps, c19B(p))
 			}
 			sinceEvict = true
 			ops = append(ops, vfApp("CEvict", vfList("list N", ps)))
+		case "db":
+			db = c19ChangeDB(db, st.Add, st.Del)
+			dbValid = c19ValidSet(db)
+			sinceDB = true
+			classes["db-change"] = true
+			var add, del []string
+			for _, e := range st.Add {
+				add = append(add, c19B(e.S))
+				classes["db-add"] = true
+			}
+			for _, s := range st.Del {
+				del = append(del, c19B(s))
+				classes["db-del"] = true
+			}
+			ops = append(ops, vfApp("CDb", vfList("list N", add), vfList("list N", del)))
 		case "check":
 			asked, lastQ, failNow = false, "", st.Fail
 			wc.events = nil
@@ -667,12 +890,44 @@ func c19Run(out *vfOut, h c19Hist, forced []string) {
 			// What the cache holds under the prefixes of the chain before the
 			// check: all a cached verdict can come from.
 			cachedBefore := map[string]bool{}
+			before := map[string][]byte{}
+			elemsBefore, _, _ := c19Peek(wc.inner)
+			for _, e := range elemsBefore {
+				before[e.key] = e.val
+			}
 			for _, n := range enum {
 				sum := c19Sum(n)
 				chain = append(chain, string(sum))
-				if data := c.cache.Get(sum[:2]); data != nil {
+				if data := before[string(sum[:2])]; data != nil {
 					for _, x := range toCacheItem(data).hashes {
 						cachedBefore[string(x[:])] = true
+					}
+				}
+				if present(n) != (before[string(sum[:2])] != nil) {
+					fail("C19/harness-account", fmt.Sprintf("before Check(%q): the monitor's account and the cache disagree about an entry for %q", st.Host, n))
+				}
+			}
+			// The verdict the property asks for: every enumerated name is judged
+			// by the database as it was when the still valid entry for its prefix
+			// was stored, or, without such an entry, by the database as it is now;
+			// the prefixes of the latter are what must be asked.
+			var expectAsk []string
+			want, wantNow, listedUnanswered := false, false, ""
+			behindValid, someLive := false, false
+			for _, n := range enum {
+				sum := string(c19Sum(n))
+				wantNow = wantNow || dbValid[sum]
+				if live(n) {
+					someLive = true
+					want = want || snap[hexp(n)][sum]
+				} else {
+					expectAsk = append(expectAsk, hexp(n))
+					want = want || dbValid[sum]
+					if dbValid[sum] && listedUnanswered == "" {
+						listedUnanswered = n
+					}
+					if present(n) && someLive {
+						behindValid = true
 					}
 				}
 			}
@@ -697,12 +952,21 @@ func c19Run(out *vfOut, h c19Hist, forced []string) {
 				} else if wf {
 					okp := map[string]bool{}
 					for _, n := range enum {
-						okp[hex.EncodeToString(c19Sum(n)[:2])] = true
+						okp[hexp(n)] = true
 					}
-					for _, l := range strings.Split(strings.TrimSuffix(body, "."), ".") {
+					got := strings.Split(strings.TrimSuffix(body, "."), ".")
+					for _, l := range got {
 						if !okp[l] {
 							fail("C19/question-foreign-label", fmt.Sprintf("question %q for host %q carries %q, not a prefix of an enumerated name", lastQ, st.Host, l))
 						}
+					}
+					// Monitor: exactly the prefixes of the enumerated names without a
+					// valid entry are sent, one label per such name.
+					g, e := append([]string(nil), got...), append([]string(nil), expectAsk...)
+					sort.Strings(g)
+					sort.Strings(e)
+					if strings.Join(g, ".") != strings.Join(e, ".") {
+						fail("C19/question-prefix-set", fmt.Sprintf("Check(%q) asked %q; the enumerated names without a valid cache entry have the prefixes %v", st.Host, lastQ, expectAsk))
 					}
 				}
 				if strings.ContainsAny(st.Host, "ghijklmnopqrstuvwxyzGHIJKLMNOPQRSTUVWXYZ") && strings.Contains(body, st.Host) {
@@ -751,14 +1015,19 @@ func c19Run(out *vfOut, h c19Hist, forced []string) {
 			} else if err != nil {
 				fail("C19/unexpected-error", fmt.Sprintf("Check(%q): %v", st.Host, err))
 			} else if wf {
-				want := false
-				for _, n := range enum {
-					if dbValid[string(c19Sum(n))] {
-						want = true
-					}
+				// Monitor: a name the service lists NOW, with no valid entry for
+				// its prefix in the cache, blocks the host.
+				if listedUnanswered != "" && !blocked {
+					fail("C19/listed-name-not-blocked", fmt.Sprintf("Check(%q) = not blocked (%s, asked %q) although the service lists %q and the cache holds no valid entry for its prefix %s", st.Host, src, lastQ, listedUnanswered, hexp(listedUnanswered)))
 				}
 				if want != blocked {
-					fail("C19/verdict-"+strings.ReplaceAll(src, " ", "-"), fmt.Sprintf("Check(%q) = %v from %s, database says %v", st.Host, blocked, src, want))
+					fail("C19/verdict-"+strings.ReplaceAll(src, " ", "-"), fmt.Sprintf("Check(%q) = %v from %s, database says %v (every name judged by the database as it was when the valid entry for its prefix was stored, else as it is now)", st.Host, blocked, src, want))
+				}
+				if want && !wantNow {
+					classes["blocked-by-entry-older-than-delisting"] = true
+				}
+				if !want && wantNow {
+					classes["clean-by-entry-older-than-listing"] = true
 				}
 			}
 			// Monitor: the cache answers only from entries that are still alive.
@@ -780,14 +1049,39 @@ func c19Run(out *vfOut, h c19Hist, forced []string) {
 				}
 			}
 			for _, ev := range wc.events {
-				for _, k := range ev.evicted {
-					delete(fetched, hex.EncodeToString([]byte(k)))
+				nSets++
+				oldest, oldestSeq := "", 0
+				for k, s := range setSeq {
+					if oldest == "" || s < oldestSeq {
+						oldest, oldestSeq = k, s
+					}
 				}
+				for i, k := range ev.evicted {
+					hk := hex.EncodeToString([]byte(k))
+					if i == 0 && hk != oldest {
+						// A Get in between saved the element stored longest ago.
+						classes["lru-evicted-not-the-oldest-set"] = true
+					}
+					forget(hk)
+				}
+				hk := hex.EncodeToString([]byte(ev.key))
 				if ev.stored {
-					fetched[hex.EncodeToString([]byte(ev.key))] = vnow
+					fetched[hk] = vnow
+					snap[hk] = dbValid
+					setSeq[hk] = nSets
+				} else {
+					classes["lru-element-refused"] = true
 				}
 				if len(ev.evicted) > 0 || !ev.stored {
 					classes["eviction-inside-store"] = true
+				}
+				if len(ev.evicted) > 1 {
+					classes["lru-set-evicts-several"] = true
+				}
+				for _, k := range ev.evicted {
+					if k == ev.key {
+						classes["lru-set-evicts-own-key"] = true
+					}
 				}
 			}
 			if wc.stray > 0 {
@@ -795,6 +1089,21 @@ func c19Run(out *vfOut, h c19Hist, forced []string) {
 			}
 			if wc.bad != "" {
 				fail("C19/cache-bytes", wc.bad)
+			}
+			// Is the usage order something else than the order of the Sets?
+			{
+				elems, _, _ := c19Peek(wc.inner)
+				last := 0
+				for _, e := range elems {
+					s := setSeq[hex.EncodeToString([]byte(e.key))]
+					if s < last {
+						classes["lru-get-reordered"] = true
+					}
+					last = s
+				}
+				if len(elems) != len(fetched) {
+					fail("C19/harness-account", fmt.Sprintf("after Check(%q): the cache holds %d elements, the monitor's account %d", st.Host, len(elems), len(fetched)))
+				}
 			}
 			// Classes.
 			if err == nil {
@@ -822,12 +1131,23 @@ func c19Run(out *vfOut, h c19Hist, forced []string) {
 					if wf && nq < len(enum) {
 						classes["partial-cache"] = true
 						nontrivial = true
+						if behindValid {
+							// An expired entry is looked up again although an entry
+							// earlier in the chain answered from the cache.
+							classes["expired-behind-valid"] = true
+							if listedUnanswered != "" {
+								classes["expired-behind-valid-now-listed"] = true
+							}
+						}
 					}
 					if seen[st.Host] && sinceAdvance {
 						classes["relookup-after-advance"] = true
 					}
 					if seen[st.Host] && sinceEvict {
 						classes["relookup-after-evict"] = true
+					}
+					if seen[st.Host] && sinceDB {
+						classes["relookup-after-db-change"] = true
 					}
 					own := map[string]bool{}
 					for _, n := range c19Subnames(st.Host) {
@@ -847,19 +1167,59 @@ func c19Run(out *vfOut, h c19Hist, forced []string) {
 							classes["uppercase-hex-served"] = true
 						}
 					}
+					// Every malformed string of the answer, by kind and by position
+					// relative to each string that is the hash of an enumerated name.
+					if len(servedRecs) > 1 {
+						classes["several-txt-records"] = true
+					}
+					inChain := map[string]bool{}
+					for _, ch := range chain {
+						inChain[ch] = true
+					}
+					for ri, rec := range servedRecs {
+						for si, s := range rec {
+							if c19TxtKind(s) != "" {
+								continue
+							}
+							if b, _ := hex.DecodeString(s); !inChain[string(b)] {
+								continue
+							}
+							for rj, rec2 := range servedRecs {
+								for sj, s2 := range rec2 {
+									kind := c19TxtKind(s2)
+									if kind == "" {
+										continue
+									}
+									pos := "later-record"
+									switch {
+									case rj < ri:
+										pos = "earlier-record"
+									case rj == ri && sj < si:
+										pos = "before"
+									case rj == ri:
+										pos = "after"
+									}
+									classes["txt-"+kind+"-"+pos] = true
+								}
+							}
+						}
+					}
 				}
 				seen[st.Host] = true
 			}
 			if wf {
 				_, icann := publicsuffix.PublicSuffix(st.Host)
 				ps, _ := publicsuffix.PublicSuffix(st.Host)
+				kind := "default-rule"
 				switch {
 				case icann:
-					classes["icann-suffix"] = true
+					kind = "icann"
 				case strings.Contains(ps, "."):
-					classes["private-suffix"] = true
-				default:
-					classes["default-rule-suffix"] = true
+					kind = "private"
+				}
+				classes[kind+"-suffix"] = true
+				if nl := strings.Count(st.Host, ".") + 1; nl <= 8 {
+					classes[fmt.Sprintf("labels-%d-%s", nl, kind)] = true
 				}
 				if strings.Count(st.Host, ".") >= 4 {
 					classes["more-than-4-labels"] = true
@@ -876,10 +1236,14 @@ func c19Run(out *vfOut, h c19Hist, forced []string) {
 				}
 				sets = append(sets, vfPair(vfPair(c19B(ev.key), vfList("list N", evs)), vfBool(ev.stored)))
 			}
+			_, size, _ := c19Peek(wc.inner)
 			ops = append(ops, vfApp("CCheck", c19B(st.Host), vfBool(st.Fail),
 				vfList("list N * list (list N) * bool", sets),
 				vfBool(blocked), vfBool(err != nil), vfOpt("list N", asked, c19B(lastQ)), dump(),
-				vfZ(int64(wc.inner.Stats().Size))))
+				vfZ(int64(size))))
+			if int(size) != wc.inner.Stats().Size {
+				fail("C19/harness-account", "cache.size read by reflection differs from Stats().Size")
+			}
 		}
 	}
 
@@ -905,8 +1269,8 @@ func c19Run(out *vfOut, h c19Hist, forced []string) {
 		psItems = append(psItems, vfPair(c19B(n), vfPair(c19B(ps), vfBool(icann))))
 	}
 	var dbItems []string
-	for _, s := range h.DB {
-		dbItems = append(dbItems, c19B(s))
+	for _, e := range h.DB {
+		dbItems = append(dbItems, c19B(e.S))
 	}
 	cls := make([]string, 0, len(classes))
 	for k := range classes {
@@ -934,39 +1298,50 @@ func TestVerifC19(t *testing.T) {
 	w := c19NewWorld()
 
 	hx := func(n string) string { return hex.EncodeToString(c19Sum(n)) }
+	sum := func(n string) (h [32]byte) { copy(h[:], c19Sum(n)); return h }
 	chk := func(h string) c19Step { return c19Step{Kind: "check", Host: h} }
 	adv := func(s int64) c19Step { return c19Step{Kind: "advance", Secs: s} }
+	dbAdd := func(ss ...string) c19Step { return c19Step{Kind: "db", Add: c19Strs(ss...)} }
+	dbDel := func(ss ...string) c19Step { return c19Step{Kind: "db", Del: ss} }
+	evict := func(names ...string) c19Step {
+		st := c19Step{Kind: "evict"}
+		for _, n := range names {
+			st.Evict = append(st.Evict, string(c19Sum(n)[:2]))
+		}
+		return st
+	}
+	const sb, pc = "sb.dns.adguard.com.", "pc.dns.adguard.com."
 	twin := w.collide["evil.com"]
 	other := sha256.Sum256([]byte("other"))
 	copy(other[:2], c19Sum("good.org")[:2])
 	// Seed-independent prelude: one constructed history per branch class.
 	prelude := []c19Hist{
 		// blocked fresh, then from cache, then expired and looked up again
-		{Suffix: "sb.dns.adguard.com.", DB: []string{hx("evil.com")},
+		{Suffix: sb, DB: c19Strs(hx("evil.com")),
 			Steps: []c19Step{chk("www.evil.com"), chk("www.evil.com"), adv(1800), chk("mail.evil.com"), adv(1900), chk("www.evil.com")}},
 		// clean fresh, clean from cache, partial cache for a sibling
-		{Suffix: "pc.dns.adguard.com.", DB: []string{hx("evil.com")},
+		{Suffix: pc, DB: c19Strs(hx("evil.com")),
 			Steps: []c19Step{chk("www.good.org"), chk("www.good.org"), chk("mail.good.org"), chk("good.org")}},
 		// prefix twin: a clean name whose prefix carries another name's hash; the twin is then blocked from cache
-		{Suffix: "sb.dns.adguard.com.", DB: []string{hx(twin)},
+		{Suffix: sb, DB: c19Strs(hx(twin)),
 			Steps: []c19Step{chk("evil.com"), chk(twin), chk("evil.com")}},
 		// the other way round: the blocked twin first
-		{Suffix: "sb.dns.adguard.com.", DB: []string{hx(twin)},
+		{Suffix: sb, DB: c19Strs(hx(twin)),
 			Steps: []c19Step{chk(twin), chk("evil.com"), adv(3700), chk("evil.com"), chk(twin)}},
 		// malformed and upper-case TXT strings, foreign hash with a shared prefix
-		{Suffix: "sb.dns.adguard.com.", DB: []string{strings.ToUpper(hx("shop.co.uk")), hx("good.org")[:63], hx("good.org") + "0",
-			hex.EncodeToString(other[:]), "zz", ""},
+		{Suffix: sb, DB: c19Strs(strings.ToUpper(hx("shop.co.uk")), hx("good.org")[:63], hx("good.org")+"0",
+			hex.EncodeToString(other[:]), "zz", ""),
 			Steps: []c19Step{chk("a.shop.co.uk"), chk("good.org"), chk("www.good.org"), chk("good.org")}},
 		// over-long TXT strings that decode and start with the hash of the queried name or of a parent: not a hash
-		{Suffix: "sb.dns.adguard.com.", DB: []string{hx("www.good.org") + "00", hx("good.org") + hx("other.example"), hx("shop.co.uk") + hx("shop.co.uk"),
-			strings.ToUpper(hx("a.shop.co.uk")) + "FF"},
+		{Suffix: sb, DB: c19Strs(hx("www.good.org")+"00", hx("good.org")+hx("other.example"), hx("shop.co.uk")+hx("shop.co.uk"),
+			strings.ToUpper(hx("a.shop.co.uk"))+"FF"),
 			Steps: []c19Step{chk("www.good.org"), chk("good.org"), chk("www.good.org"), chk("a.shop.co.uk"), chk("shop.co.uk"), adv(3700), chk("www.good.org")}},
 		// upstream failure leaves the cache alone
-		{Suffix: "sb.dns.adguard.com.", DB: []string{hx("evil.com")},
+		{Suffix: sb, DB: c19Strs(hx("evil.com")),
 			Steps: []c19Step{{Kind: "check", Host: "evil.com", Fail: true}, chk("evil.com"), {Kind: "check", Host: "evil.com", Fail: true},
-				{Kind: "evict", Evict: []string{string(c19Sum("evil.com")[:2])}}, {Kind: "check", Host: "evil.com", Fail: true}, chk("evil.com")}},
+				evict("evil.com"), {Kind: "check", Host: "evil.com", Fail: true}, chk("evil.com")}},
 		// suffix kinds, long names, mixed case, public suffixes themselves, odd names
-		{Suffix: "x.", DB: []string{hx("d.e.f.com"), hx("blogspot.com"), hx("COM"), hx("k12.ma.us"), hx("foo.ck")},
+		{Suffix: "x.", DB: c19Strs(hx("d.e.f.com"), hx("blogspot.com"), hx("COM"), hx("k12.ma.us"), hx("foo.ck")),
 			Steps: []c19Step{chk("a.b.c.d.e.f.com"), chk("x.blogspot.com"), chk("Evil.COM"), chk("co.uk"), chk("com"),
 				chk("x.pvt.k12.ma.us"), chk("y.x.pvt.k12.ma.us"), chk("foo.ck"), chk("a.foo.ck"), chk("www.ck"), chk("mail.lan"),
 				chk(""), chk("a."), chk(".com"), chk("a..com"), chk("."), chk("a.b.c.d.")}},
@@ -976,20 +1351,20 @@ func TestVerifC19(t *testing.T) {
 		// spliced hashes, fresh path only: prefix of one chain member + the other
 		// 30 bytes of another, both ways and over a chain of three; every check
 		// goes upstream (evictions in between), nothing is blocked
-		c19Hist{Suffix: "sb.dns.adguard.com.",
-			DB: []string{spx("good.org", "www.good.org"), spx("www.good.org", "good.org"),
-				spx("evil.com", "a.b.evil.com"), spx("b.evil.com", "evil.com")},
+		c19Hist{Suffix: sb,
+			DB: c19Strs(spx("good.org", "www.good.org"), spx("www.good.org", "good.org"),
+				spx("evil.com", "a.b.evil.com"), spx("b.evil.com", "evil.com")),
 			Steps: []c19Step{chk("www.good.org"),
-				{Kind: "evict", Evict: []string{string(c19Sum("good.org")[:2]), string(c19Sum("www.good.org")[:2])}},
+				evict("good.org", "www.good.org"),
 				chk("www.good.org"), chk("a.b.evil.com"),
-				{Kind: "evict", Evict: []string{string(c19Sum("evil.com")[:2]), string(c19Sum("b.evil.com")[:2]), string(c19Sum("a.b.evil.com")[:2])}},
+				evict("evil.com", "b.evil.com", "a.b.evil.com"),
 				chk("b.evil.com")}},
 		// spliced hashes, cached path: the second check of each name is answered
 		// from the entries that hold the spliced hashes; a real hash beside them
 		// still blocks its own name only
-		c19Hist{Suffix: "pc.dns.adguard.com.",
-			DB: []string{spx("good.org", "www.good.org"), spx("www.good.org", "good.org"),
-				spx("evil.com", "a.b.evil.com"), spx("a.b.evil.com", "b.evil.com"), hx("mail.evil.com")},
+		c19Hist{Suffix: pc,
+			DB: c19Strs(spx("good.org", "www.good.org"), spx("www.good.org", "good.org"),
+				spx("evil.com", "a.b.evil.com"), spx("a.b.evil.com", "b.evil.com"), hx("mail.evil.com")),
 			Steps: []c19Step{chk("www.good.org"), chk("www.good.org"), chk("good.org"),
 				chk("a.b.evil.com"), chk("a.b.evil.com"), chk("b.evil.com"), chk("mail.evil.com"), chk("mail.evil.com"),
 				adv(3700), chk("www.good.org"), chk("www.good.org")}},
@@ -997,11 +1372,130 @@ func TestVerifC19(t *testing.T) {
 	// The same answers into caches that cannot hold them: three prefixes per
 	// answer, entries of 42 bytes.
 	for _, size := range []uint{45, 60, 100, 130} {
-		prelude = append(prelude, c19Hist{CacheSize: size, Suffix: "sb.dns.adguard.com.",
-			DB: []string{hx("a.b.evil.com"), hx("b.evil.com"), hx("evil.com")},
+		prelude = append(prelude, c19Hist{CacheSize: size, Suffix: sb,
+			DB: c19Strs(hx("a.b.evil.com"), hx("b.evil.com"), hx("evil.com")),
 			Steps: []c19Step{chk("a.b.evil.com"), chk("a.b.evil.com"), chk("a.b.evil.com"), chk("evil.com"), chk("b.evil.com"),
 				adv(3700), chk("a.b.evil.com"), chk("www.good.org"), chk("evil.com")}})
 	}
+
+	// ---- Round 4: the database changes between checks.
+	prelude = append(prelude,
+		// The parent's entry is older than the child's and expires first; the
+		// service has listed the parent meanwhile: the parent's prefix, and only
+		// that one, is looked up again and the child is blocked.
+		c19Hist{Suffix: sb,
+			Steps: []c19Step{chk("example.com"), adv(1800), chk("sub.example.com"), dbAdd(hx("example.com")),
+				chk("sub.example.com"), adv(1900), chk("sub.example.com"), chk("sub.example.com"), chk("example.com")}},
+		// A chain of three with three ages: first the grandparent expires (not
+		// listed), then the listed parent in the middle, the child's own entry
+		// staying valid throughout.
+		c19Hist{Suffix: pc,
+			Steps: []c19Step{chk("c.com"), adv(1000), chk("b.c.com"), adv(1000), chk("a.b.c.com"), dbAdd(hx("b.c.com")),
+				adv(1700), chk("a.b.c.com"), adv(1000), chk("a.b.c.com"), chk("b.c.com"), chk("c.com")}},
+		// The name itself is listed while its entries are valid: clean from the
+		// cache until the entry goes, then blocked by asking its prefix alone.
+		c19Hist{Suffix: sb,
+			Steps: []c19Step{chk("sub.example.com"), dbAdd(hx("sub.example.com")), chk("sub.example.com"),
+				evict("sub.example.com"), chk("sub.example.com"), chk("sub.example.com")}},
+		// Delisting: blocked from the cache for as long as the entry lives.
+		c19Hist{Suffix: sb, DB: c19Strs(hx("evil.com"), hx("www.evil.com")),
+			Steps: []c19Step{chk("www.evil.com"), dbDel(hx("evil.com")), chk("www.evil.com"), chk("mail.evil.com"),
+				dbDel(hx("www.evil.com")), adv(3700), chk("www.evil.com"), chk("mail.evil.com")}},
+		// A foreign hash under the prefix comes and goes; an expired empty entry
+		// that gets no hashes is not rewritten and is asked about every time.
+		c19Hist{Suffix: "x.",
+			Steps: []c19Step{chk("good.org"), dbAdd(hex.EncodeToString(other[:])), chk("good.org"), adv(3700), chk("good.org"),
+				dbDel(hex.EncodeToString(other[:])), chk("good.org"), adv(3700), chk("good.org"), chk("good.org"),
+				dbAdd(hx("good.org")), chk("good.org"), chk("good.org")}},
+	)
+
+	// ---- Round 4: the usage order of the library cache.  Names with a chain
+	// of one (x.com) store elements of 10 bytes; 45 bytes hold four of them.
+	prelude = append(prelude,
+		// A Get moves the element to the hot end: n2, not n1, goes for n5.
+		c19Hist{CacheSize: 45, Suffix: sb,
+			Steps: []c19Step{chk("n1.com"), chk("n2.com"), chk("n3.com"), chk("n4.com"), chk("n1.com"), chk("n5.com"),
+				chk("n1.com"), chk("n2.com"), chk("n3.com")}},
+		// One element of 42 bytes pushes out four of 10.
+		c19Hist{CacheSize: 45, Suffix: sb, DB: c19Strs(hx("evil.com")),
+			Steps: []c19Step{chk("n1.com"), chk("n2.com"), chk("n3.com"), chk("n4.com"), chk("evil.com"), chk("evil.com"),
+				chk("n4.com"), chk("evil.com")}},
+		// A Set deletes the element of its own key on the way: three expired
+		// elements of the chain, all just read; the answer has a hash for the
+		// first.
+		c19Hist{CacheSize: 45, Suffix: sb,
+			Steps: []c19Step{chk("a.b.evil.com"), adv(3700), dbAdd(hx("a.b.evil.com")), chk("a.b.evil.com"), chk("a.b.evil.com"),
+				chk("b.evil.com")}},
+		// An element larger than the whole cache (two hashes under one prefix,
+		// 76 bytes) is refused: no entry, above all no empty one.
+		c19Hist{CacheSize: 45, Suffix: sb, DB: c19Strs(hx("evil.com"), hex.EncodeToString(func() []byte {
+			o := sha256.Sum256([]byte("another"))
+			copy(o[:2], c19Sum("evil.com")[:2])
+			return o[:]
+		}())),
+			Steps: []c19Step{chk("evil.com"), chk("evil.com"), chk("www.evil.com"), chk("www.evil.com")}},
+	)
+
+	// ---- Round 4: every kind of malformed TXT string in every position
+	// relative to the string that is the hash of an enumerated name (the name
+	// itself or its parent), in one TXT record or in another one.
+	for ki, kind := range c19TxtKinds {
+		for pi, pos := range c19TxtPositions {
+			host, listed := "www.good.org", "good.org"
+			if (ki+pi)%2 == 1 {
+				host, listed = "mail.evil.com", "mail.evil.com"
+			}
+			mal := c19Txt{S: c19Malformed(kind, sum(listed), ki+pi)}
+			match := c19Txt{S: hx(listed)}
+			var db []c19Txt
+			switch pos {
+			case "before":
+				db = []c19Txt{mal, match}
+			case "after":
+				db = []c19Txt{match, mal}
+			case "earlier-record":
+				match.Brk = true
+				db = []c19Txt{mal, match}
+			default:
+				mal.Brk = true
+				db = []c19Txt{match, mal}
+			}
+			prelude = append(prelude, c19Hist{Suffix: sb, DB: db, Steps: []c19Step{chk(host), chk(host)}})
+		}
+	}
+	// All kinds around one hash, three records.
+	{
+		var db []c19Txt
+		all := func(v int, brk bool) {
+			for i, kind := range c19TxtKinds {
+				db = append(db, c19Txt{S: c19Malformed(kind, sum("good.org"), v+i), Brk: brk && i == 0})
+			}
+		}
+		all(0, false)
+		all(1, true)
+		db = append(db, c19Txt{S: hx("good.org")})
+		all(2, false)
+		all(3, true)
+		prelude = append(prelude, c19Hist{Suffix: pc, DB: db, Steps: []c19Step{chk("www.good.org"), chk("good.org"), chk("good.org")}})
+	}
+
+	// ---- Round 4: 1..8 labels on ICANN, private and unlisted suffixes.
+	for _, suf := range []string{"com", "blogspot.com", "s3.amazonaws.com", "lan", "co.uk"} {
+		hst := c19Hist{Suffix: "x.", DB: c19Strs(hx("k9."+suf), hx(suf), hx("x.y.k9."+suf))}
+		name := suf
+		for n, j := strings.Count(suf, ".")+1, 0; n <= 8; n, j = n+1, j+1 {
+			hst.Steps = append(hst.Steps, chk(name))
+			name = []string{"k9", "y", "x", "www", "mail", "shop", "good", "pvt"}[j%8] + "." + name
+		}
+		hst.Steps = append(hst.Steps, dbDel(hx(suf)), adv(3700))
+		for _, st := range append([]c19Step(nil), hst.Steps...) {
+			if st.Kind == "check" {
+				hst.Steps = append(hst.Steps, st)
+			}
+		}
+		prelude = append(prelude, hst)
+	}
+
 	for _, h := range prelude {
 		c19Run(out, h, nil)
 	}
